@@ -263,7 +263,18 @@ class Replayer:
             if op == "SetMode":
                 real[o].auto_fork_type = _MODE[args[0]]
             elif op == "Assign":
+                held = real[o]._values.get(node) if real[o].auto_fork_type is StateForkType.COPY else None
                 real[o][node] = self.wrap(node, num(args[0], self.fns, self.graph, self.n_inds))
+                # COPY mode promises isolation between the fork and later modifications of the original values: the caller re-uses
+                # the buffer of the value it had assigned before (in place), which must be invisible (a stuttering step of the
+                # specification).  Not done when another live object still refers to the same tensor.
+                if held is not None and not any(
+                        any(v is held for v in (other._values.get(node), (other._last_fork or {}).get(node)))
+                        for oo, other in real.items() if oo != o and other is not None):
+                    buf = held.value if hasattr(held, "value") and not isinstance(held, torch.Tensor) else held
+                    if isinstance(buf, torch.Tensor) and buf.dtype.is_floating_point and buf is not (real[o]._values.get(node)):
+                        with torch.no_grad():
+                            buf.add_(777.0)
             elif op == "Put":
                 i, x, acc = args
                 xv = num(x, self.fns, self.graph, self.n_inds)
